@@ -111,7 +111,7 @@ def gen_arr(v, n, fill):
     return np.array([fill if e is None else e for e in v], dtype=float)
 
 
-FORMS = ("x0_view", "bounds_view", "ret_list", "ret_samebuf", "ret_noncontig", "mutates_x", "keeps_x", "np_scalars", "extra_args")
+FORMS = ("x0_view", "bounds_view", "ret_list", "ret_samebuf", "ret_noncontig", "mutates_x", "keeps_x", "np_scalars", "extra_args", "proj_inplace")
 ARGSF = (2.5, "token-f")
 ARGSH = (("token-h", 7),)
 ARGSPROX = (-1.25, None)
@@ -292,6 +292,10 @@ def build(cfg, ctx):
     for k in ("npt", "rhobeg", "rhoend", "maxfun", "scaling_within_bounds", "objfun_has_noise", "do_logging", "print_progress"):
         if k in a and a[k] is not None:
             kw[k] = a[k]
+    if "np_scalars" in forms and kw.get("scaling_within_bounds") is True:
+        kw["scaling_within_bounds"] = np.bool_(True)       # the result of a numpy comparison, as in np.all(upper > lower)
+    if cfg.get("_x0_int"):
+        b.x0 = np.rint(b.x0).astype(np.int64)               # integer-typed start (its values are integral in the cfg already)
     if cfg.get("lower") is not None or cfg.get("upper") is not None:
         lo = None if cfg.get("lower") is None else arr(cfg["lower"], n, -1e20)
         hi = None if cfg.get("upper") is None else arr(cfg["upper"], n, 1e20)
@@ -316,6 +320,14 @@ def build(cfg, ctx):
     b.projs = []
     if cfg.get("proj"):
         b.projs = [make_projection(p) for p in cfg["proj"]]
+        if "proj_inplace" in forms:
+            # user projectors that overwrite the vector they are handed and return it (np.clip(w, l, u, out=w) style)
+            def _inplace(q):
+                def w(v):
+                    v[...] = q(v.copy())
+                    return v
+                return w
+            b.projs = [_inplace(q) for q in b.projs]
         kw["projections"] = list(b.projs)
     b.h = b.prox = None
     if cfg.get("reg"):
@@ -366,8 +378,13 @@ def run_cfg(cfg, ctx=None, timeout=60, built=None, **over):
     engine.apply_failpoint(ctx, cfg.get("failpoint"))
     if cfg.get("_nolog") and not cfg.get("nsamples") and kw.get("do_logging") is False:
         ctx.extra["synth_pairs"] = True
-    run = engine.run_solve(b.objfun, b.x0.copy(), ctx=ctx, timeout=timeout, faults=b.faults, persistent=b.persistent,
-                           solve_kwargs=kw)
+    x0_arg = b.x0 if "x0_view" in b.forms else b.x0.copy()
+    if kw.get("print_progress"):
+        import io, contextlib
+        with contextlib.redirect_stdout(io.StringIO()):
+            run = engine.run_solve(b.objfun, x0_arg, ctx=ctx, timeout=timeout, faults=b.faults, persistent=b.persistent, solve_kwargs=kw)
+    else:
+        run = engine.run_solve(b.objfun, x0_arg, ctx=ctx, timeout=timeout, faults=b.faults, persistent=b.persistent, solve_kwargs=kw)
     run.built = b
     run.cfg = cfg
     return run
@@ -546,7 +563,7 @@ def gen_options(rng, n, npt=None, allow=("restarts", "regression", "growing", "r
         up["logging.save_diagnostic_info"] = True
         up["logging.save_poisedness"] = bool(r() < 0.3)
     if "rare" in allow:
-        rare_options(up, n)
+        rare_options(up, n, npt=npt)
     out["user_params"] = up
     return out
 
@@ -576,7 +593,7 @@ def wide_growing_options(up, n, npt, p=0.3):
     return up
 
 
-def rare_options(up, n, p_block=0.3, reg=False, proj=False):
+def rare_options(up, n, p_block=0.3, reg=False, proj=False, npt=None):
     """Seldom-used keys of the parameter table that no other generator touches (C07 enumerates them, but judges only
     well-formedness): strictly interior, documented-valid values. Drawn from a child generator seeded by the options chosen so far,
     so adding this block did not move any other draw of the callers' streams."""
@@ -587,6 +604,9 @@ def rare_options(up, n, p_block=0.3, reg=False, proj=False):
     if "regression.num_extra_steps" in up and r() < 0.35:
         # more extra steps than there are points to move (documented range: any non-negative integer; the solver caps it)
         up["regression.num_extra_steps"] = int(g.integers(3, 2 * n + 6))
+    if up.get("restarts.use_restarts") and "restarts.increase_npt" not in up and "restarts.max_npt" not in up and r() < 0.2:
+        # restarts.max_npt above npt while restarts.increase_npt is off: documented no-op
+        up["restarts.max_npt"] = int((npt if npt is not None else n + 1) + g.integers(1, n + 3))
     if r() >= p_block:
         return up
     q = 0.35
